@@ -161,26 +161,34 @@ func runFileHistories(run *Run, right, other *authority, ver string, maxVer uint
 			h := hsResult{Kind: "file", Ver: ver, Key: fmt.Sprintf("file|%s|%s", ver, strings.Join(coqHist, ";")), Kinds: []string{"file-history-" + ver, fmt.Sprintf("file-history-step=%d", step)}, Rep: rp,
 				Coq: fmt.Sprintf("(%s, (%d%%nat, %d%%nat, %d%%nat))", CoqList(coqHist), sCA, seenCert, cCA)}
 			// ---- finder: the policy of the LAST application with the files as they are now
+			type fv struct{ sig, what string }
+			var vs []fv
 			for _, side := range []struct {
 				name string
 				acc  map[int]bool
 			}{{"server-side", sAcc}, {"client-side", cAcc}} {
 				for k := 1; k <= 2; k++ {
 					switch {
-					case side.acc[k] && k != wantCA && h.FailSig == "":
-						h.FailSig = "tls:removed-ca-still-trusted:" + side.name
-						h.FailWhat = fmt.Sprintf("%s: after the applications %v the configured CA file holds CA%d, yet a peer whose certificate chains only to CA%d completed the handshake", side.name, descr, wantCA, k)
+					case side.acc[k] && k != wantCA:
+						sig := "tls:removed-ca-still-trusted:" + side.name
 						if !seenCA[k] {
-							h.FailSig = "tls:policy-depends-on-earlier-config:ca-file-rotated:" + side.name
+							sig = "tls:policy-depends-on-earlier-config:ca-file-rotated:" + side.name
 						}
-					case !side.acc[k] && k == wantCA && h.FailSig == "":
-						h.FailSig = "tls:configured-ca-rejected:" + side.name
-						h.FailWhat = fmt.Sprintf("%s: after the applications %v the configured CA file holds CA%d, yet a peer whose certificate chains to CA%d was rejected", side.name, descr, wantCA, k)
+						vs = append(vs, fv{sig, fmt.Sprintf("%s: after the applications %v the configured CA file holds CA%d, yet a peer whose certificate chains only to CA%d completed the handshake", side.name, descr, wantCA, k)})
+					case !side.acc[k] && k == wantCA:
+						vs = append(vs, fv{"tls:configured-ca-rejected:" + side.name, fmt.Sprintf("%s: after the applications %v the configured CA file holds CA%d, yet a peer whose certificate chains to CA%d was rejected", side.name, descr, wantCA, k)})
 					}
 				}
 			}
-			if seenCert != wantCert && h.FailSig == "" {
-				h.FailSig, h.FailWhat = "tls:policy-depends-on-earlier-config:cert-file-rotated", fmt.Sprintf("after the applications %v the certificate file holds certificate %d, the server presents %d", descr, wantCert, seenCert)
+			if seenCert != wantCert {
+				vs = append(vs, fv{"tls:policy-depends-on-earlier-config:cert-file-rotated", fmt.Sprintf("after the applications %v the certificate file holds certificate %d, the server presents %d", descr, wantCert, seenCert)})
+			}
+			for i, v := range vs {
+				if i == 0 {
+					h.FailSig, h.FailWhat = v.sig, v.what
+				} else {
+					out = append(out, hsResult{Kind: "skip", Ver: ver, Key: h.Key + "|" + v.sig, FailSig: v.sig, FailWhat: v.what, Rep: rp})
+				}
 			}
 			out = append(out, h)
 		}
